@@ -491,6 +491,13 @@ class StoreJudge:
         tid = op[1]
         t = self.toks.get(tid)
         valid = t is not None and t.side == side and t.state in ("pending", "granted")
+        if valid and head.startswith("ok-but-returned"):
+            # the cancellation was carried out but reports failure: Machine / Splitter (FIRST_AVAILABLE in-edges) test the return value and
+            # raise ValueError("Failed to cancel reserve_get …") - a valid model aborts
+            self.v("C20", f"cancellation of live token {tid} was carried out but returned {head.split('-')[-1]}: the nodes that withdraw their surplus "
+                          f"requests raise on a falsy return value (a valid model aborts)", "kernel-exception")
+            self.v("C07", f"cancellation of live token {tid} reports failure ({head})")
+            head = "ok"
         if valid:
             if head != "ok":
                 self.v("C07", f"cancellation of live token {tid} failed: {head}")
@@ -535,6 +542,9 @@ class StoreJudge:
                 # the probe a non-blocking node decides on: true without room = it will wait, false with room = it will drop (C09, edge side)
                 self.v("C09", f"can_put() = {w[1]} but a space reservation issued now would{'' if exp else ' not'} be granted at once: a non-blocking "
                               f"node that probes this edge {'drops an item although there is room' if exp else 'waits with a finished item'}", "probe")
+                if exp:      # C10: the node holds a finished item, the out-edge has room, and the item is not pushed (it is thrown away)
+                    self.v("C10", "can_put() = false although a space reservation issued now would be granted at once: the non-blocking node that probes "
+                                  "this edge does not push its finished item although the out-edge has room", "probe")
         elif op[1] == "can_get" and self.quiescent:
             exp = len(self.available()) > len(self.granted("get")) and not self.pending("get")
             if (w[1] == "true") != exp:
